@@ -3,7 +3,7 @@ from __future__ import annotations
 
 import collections
 
-from bvt.engine import ET, pattern_matches
+from bvt.engine import ET, bus_name, pattern_matches
 
 TYPE_IDX = {c.__name__: i for i, c in enumerate(ET)}
 
@@ -16,7 +16,9 @@ class Facts:
         self.final = out.get('final', {})
         self.hang = out.get('hang')
         self.nb = len(sc['buses'])
-        self.par = {f'B{i}': bool(b.get('par')) for i, b in enumerate(sc['buses'])}
+        self.bidx = {bus_name(sc, i): i for i in range(len(sc['buses']))}
+        self.bname = {i: n for n, i in self.bidx.items()}
+        self.par = {bus_name(sc, i): bool(b.get('par')) for i, b in enumerate(sc['buses'])}
         self.parent = {int(k): v for k, v in out['parent'].items()}
         self.children = {int(k): v for k, v in out['children'].items()}
         self.enq = collections.OrderedDict()  # (bus, ev) -> [idx...]
@@ -76,7 +78,7 @@ class Facts:
 
     # -- handlers
     def expected(self, bus: str, ev: int) -> set:
-        bi = int(bus[1:])
+        bi = self.bidx[bus]
         typ = self.etype.get(ev)
         if typ is None:
             return set()
@@ -129,5 +131,5 @@ class Facts:
         out = []
         for r in self.tr:
             if r['k'] in ('disp', 'redisp') and r.get('ev') == ev and r.get('ok'):
-                out.append(int(r['bus'][1:]))
+                out.append(self.bidx[r['bus']])
         return out
